@@ -68,7 +68,7 @@ class Case:
         raise ValueError(k)
 
     def line(self):
-        C = 1 << self.capk
+        C = 1 << (40 if self.dropping == 2 else self.capk)   # dropping = 2: UnboundedBlocking, initial capacity 2^capk
         f = self.facts
         ob = 0 if f.get('bq_publish_on_batch') == 'false' else 1
         od = 0 if f.get('bq_publish_on_drain') == 'false' else 1
